@@ -14,6 +14,16 @@ optional-attribute annotation anywhere, attribute names normalised.
 -/
 import CtyModel.Lemmas.WFCall
 import CtyModel.Props.C02
+import CtyModel.Lemmas.d06Cons
+import CtyModel.Lemmas.d06WF
+import CtyModel.Props.C17Json
+import CtyModel.Lemmas.d06Convert
+import CtyModel.Lemmas.d06Access
+import CtyModel.Lemmas.d06Gocty
+import CtyModel.Lemmas.d06WalkSets
+import CtyModel.Lemmas.d06Stdlib
+import CtyModel.Lemmas.d06WFStrict
+import Lean
 namespace CtyModel
 namespace C06
 open Value
@@ -259,6 +269,360 @@ theorem accessors_total_index (e : Ty) (vs : List Payload) (i : Nat) (hi : i < v
   have hs : vs[i]? = some vs[i] := by simp [hi]
   rw [hs] at h
   exact ⟨_, h, wf_index _ _ _ hv h⟩
+
+/-! ## d06 — "strings, attribute names and map keys are NFC-normalized": ESTABLISHED by the constructors
+
+`wf_mapVal` / `wf_objectVal` above are about `Gocty.mapVal` / `Gocty.objectVal`, whose keys "arrive
+normalised and strictly ascending" (hypotheses `hasc`, `hk`).  `D06.mapValN` / `D06.objectValN`
+(CtyModel/d06Cons.lean, diffed against `cty.MapVal` / `cty.ObjectVal` on raw, non-NFC and colliding keys by
+the `c06.mapvaln` / `c06.objectvaln` correspondence) contain the constructors' own `NormalizeString` step:
+nothing is assumed of the raw keys.  `norm` is the oracle for `ctystrings.Normalize`; the two laws used —
+`nfc (norm s)` and `norm (norm s) = norm s` — are probed on the real library on every run. -/
+
+/-- `MapVal` on RAW keys (any strings, in the order the Go `range` happens to visit them): whenever it returns,
+given well-formed members, the result is well-formed — in particular its keys are NFC and distinct. -/
+theorem wf_mapVal_normalizing (norm : String → String) (hn : ∀ s, nfc (norm s) = true) {ks : List String}
+    {ws : List Value} {r : Value} (h : D06.mapValN norm ks ws = .ok r) (hws : ∀ w ∈ ws, w.WF nfc = true) :
+    r.WF nfc = true := D06.wf_mapValN norm hn h hws
+
+/-- `ObjectVal` on RAW attribute names (`cty.Object` inside it normalises the names a second time, hence
+`norm_idem`): always well-formed given well-formed attribute values — attribute names NFC, the value's
+attribute set equal to the type's. -/
+theorem wf_objectVal_normalizing (norm : String → String) (hn : ∀ s, nfc (norm s) = true)
+    (hidem : ∀ s, norm (norm s) = norm s) {ks : List String} {ws : List Value}
+    (hws : ∀ w ∈ ws, w.WF nfc = true) : (D06.objectValN norm ks ws).WF nfc = true :=
+  D06.wf_objectValN norm hn hidem hws
+
+/-- the keys of the result are exactly normal forms of raw keys (none invented) -/
+theorem objectVal_names_are_normalized_inputs (norm : String → String) (ks : List String) (ws : List Value)
+    (hl : ks.length = ws.length) : ∀ k ∈ (D06.buildMap norm ks ws).1, ∃ s ∈ ks, k = norm s :=
+  D06.objectValN_keys norm ks ws hl
+
+/-- keys that are already normal and ascending go through unchanged: on such keys the constructor with the
+normalisation step IS the constructor of `wf_mapVal` (`Gocty.mapVal`) -/
+theorem mapVal_normalizing_fixed (norm : String → String) (ks : List String) (ws : List Value)
+    (hl : ks.length = ws.length) (ha : Ty.strictAsc ks = true) (hfix : ∀ k ∈ ks, norm k = k) :
+    D06.mapValN norm ks ws = Gocty.mapVal ks ws := by
+  unfold D06.mapValN Gocty.mapVal
+  rw [D06.buildMap_fixed norm ks ws hl ha hfix]
+  rfl
+
+/-! non-vacuity: a normaliser that really changes a key (the decomposed "\u00e9"), two raw keys that collide -/
+def normE (s : String) : String := if s = "e\u0301" then "\u00e9" else s
+def nfcE (s : String) : Bool := s != "e\u0301"
+theorem normE_nfc : ∀ s, nfcE (normE s) = true := by
+  intro s; unfold normE nfcE; split <;> simp_all
+theorem normE_idem : ∀ s, normE (normE s) = normE s := by
+  intro s; unfold normE; split <;> simp_all
+example : (match D06.mapValN normE ["k", "e\u0301", "\u00e9"] [⟨.string, .s "1"⟩, ⟨.string, .s "2"⟩, ⟨.string, .marked ["m"] (.s "3")⟩] with
+    | .ok r => r.WF nfcE && (match r.v with
+        | .smap ks [.s "1", .marked _ (.s "3")] => ks == ["k", "\u00e9"]   -- the later write to "é" wins
+        | _ => false)
+    | _ => false) = true := by decide
+example : Value.WF nfcE ⟨.map .string, .smap ["e\u0301"] [.s "1"]⟩ = false := by decide
+example : (D06.objectValN normE ["e\u0301", "a"] [⟨.string, .s "1"⟩, ⟨.list .bool, .seq [.b true]⟩]).WF nfcE = true := by decide
+
+/-! ## d06 — "sets hold no … duplicate members", stated so that it cannot pass for the wrong reason
+
+`Value.WF`'s clause `noDup` reads a member `Equals` that is not `.ok` (the unmodelled capsule comparison,
+a panic) as "not equivalent".  `Value.WFc cid nfc` (CtyModel/d06WF.lean) is `WF` with the clause at full
+strength: in every set at every depth, every pair of members has an `Equals` the model evaluates, and the
+answer is not "known true"; capsule leaves are compared by the abstract tagging `cid` (any equivalence on
+capsule payloads; the harness sends pointer identity, and the `c06.equalsc` correspondence diffs
+`Value.Equals` on capsule-bearing operands against the model on the tagged operands).  The driver's `wfc`
+verb — the judge of every value the harness sees — evaluates `WFc`. -/
+
+/-- Full-strength reading of the OLD clause: what `Value.WF` accepts holds no duplicate members, whatever the
+capsule equality.  FALSE — kept visible; see the counterexample. -/
+def WFImpliesDuplicateFree : Prop :=
+  ∀ (cid : Nat → Nat) (v : Value), v.WF (fun _ => true) = true → D06.dupFreeC cid v = true
+
+/-- a set holding the SAME capsule twice (also inside one-element tuples): accepted by `WF`, rejected by `WFc`;
+the set of two different capsules is accepted by both -/
+theorem wfImpliesDuplicateFree_counterexample :
+    Value.WF (fun _ => true) ⟨.set (.capsule 1), .sset [5, 5] [.caps, .caps]⟩ = true ∧
+    Value.WFc (D06.cidOf [1, 1]) (fun _ => true) ⟨.set (.capsule 1), .sset [5, 5] [.caps, .caps]⟩ = false ∧
+    Value.WFc (D06.cidOf [1, 2]) (fun _ => true) ⟨.set (.capsule 1), .sset [5, 5] [.caps, .caps]⟩ = true ∧
+    Value.WF (fun _ => true) ⟨.set (.tuple [.capsule 1]), .sset [5, 5] [.seq [.caps], .seq [.caps]]⟩ = true ∧
+    Value.WFc (D06.cidOf [7, 7]) (fun _ => true) ⟨.set (.tuple [.capsule 1]), .sset [5, 5] [.seq [.caps], .seq [.caps]]⟩ = false :=
+  D06.wrong_reason_witness
+
+theorem wfImpliesDuplicateFree_false : ¬ WFImpliesDuplicateFree := by
+  intro h
+  have := h (D06.cidOf [1, 1]) ⟨.set (.capsule 1), .sset [5, 5] [.caps, .caps]⟩ (by decide)
+  revert this
+  decide
+
+/-- … and TRUE where no capsule type is involved: for a value whose type mentions no capsule type, `WF` implies the
+strict predicate, whatever the oracle — `Equals` evaluates on every pair of members of every well-formed set
+(`equals_total`), nested sets included.  So every `wf_…` theorem of this file is a theorem about `WFc` for capsule-free
+result types; the wrong-reason pass was confined to capsule-bearing element types. -/
+theorem wfImpliesDuplicateFree_partial (cid : Nat → Nat) {v : Value} (hv : v.WF nfc = true)
+    (hc : Ty.hasCapsule v.ty = false) : v.WFc cid nfc = true := D06.WFc_of_WF_noCaps cid hv hc
+
+/-- the tie of the judge: the harness reads `pass` from the `wfc` verb exactly when the tag column fits the value and
+the strict predicate holds of the dumped value (the analogue of `verdict_pass_iff`; not a clause of the property) -/
+theorem wfc_verdict_pass_iff (cids : List Nat) (v : Value) :
+    D06.wfcVerdict cids nfc v = "pass" ↔ (D06.capsCount v.v = cids.length ∧ v.WFc (D06.cidOf cids) nfc = true) := by
+  have fail_ne_pass : ∀ x : String, "fail " ++ x ≠ "pass" := by
+    intro x he
+    have := congrArg String.length he
+    simp [String.length_append] at this
+    have h5 : "fail ".length = 5 := by decide
+    have h4 : "pass".length = 4 := by decide
+    omega
+  unfold D06.wfcVerdict
+  split
+  · rename_i h
+    constructor
+    · intro he; exact absurd he (by decide)
+    · intro ⟨h1, _⟩; simp [h1] at h
+  · rename_i h
+    have hc : D06.capsCount v.v = cids.length := by simpa using h
+    split
+    · rename_i hw; simp [hc, hw]
+    · rename_i hw
+      constructor
+      · intro he
+        split at he
+        · exact absurd he (fail_ne_pass _)
+        · exact absurd he (fail_ne_pass _)
+      · intro ⟨_, h2⟩; exact absurd h2 hw
+
+/-- the strict predicate implies the one all the `wf_…` theorems are about -/
+theorem wfc_implies_wf {cid : Nat → Nat} {v : Value} (h : v.WFc cid nfc = true) : v.WF nfc = true :=
+  D06.WF_of_WFc h
+
+/-- the strict duplicate clause implies the old one, and is the same wherever `Equals` evaluates on all pairs -/
+theorem strict_noDup_implies_noDup (e : Ty) (vs : List Payload) (h : D06.noDupS e vs = true) : noDup e vs = true :=
+  D06.noDup_of_noDupS e vs h
+theorem strict_noDup_iff_of_pairsOk (e : Ty) (vs : List Payload) (hp : pairsOk e vs = true) :
+    D06.noDupS e vs = true ↔ noDup e vs = true :=
+  ⟨D06.noDup_of_noDupS e vs, D06.noDupS_of_noDup e vs hp⟩
+
+/-- for a value whose type mentions no capsule type the oracle is irrelevant -/
+theorem wfc_oracle_irrelevant_without_capsules (cid cid' : Nat → Nat) {v : Value} (hc : D06.hasCapsTy v.ty = false) :
+    v.WFc cid nfc = v.WFc cid' nfc := D06.WFc_of_noCaps cid cid' hc
+
+/-- `SetVal` (hypotheses of `wf_setVal_partial`): below its one mark layer the result is a set whose members are
+STRICTLY duplicate-free.  With members relabelled by `D06.decap cid` this is the statement for capsule-bearing
+members under the capsule equality `cid`. -/
+theorem setVal_strictly_duplicate_free {ws : List Value} {hs : List Int} {r : Value} (h : setValH ws hs = .ok r)
+    (hws : ∀ w ∈ ws, w.WF nfc = true)
+    (hok : ∀ et, Gocty.elemTypeOf .dyn (ws.map setMember) = .ok et →
+      setRulesOk et ((Gocty.payloads (ws.map setMember)).zip hs) = true) :
+    ∃ et ids vs, r.unmark = ⟨.set et, .sset ids vs⟩ ∧ D06.noDupS et vs = true :=
+  D06.setVal_noDupS h hws hok
+
+/-- non-vacuity: `SetVal` of the same capsule twice and another one (tags 4, 4, 9), relabelled — one member is
+dropped, and the result passes the strict judge -/
+example : (match setValH [D06.decap (D06.cidOf [4]) ⟨.capsule 1, .caps⟩, D06.decap (D06.cidOf [4]) ⟨.capsule 1, .caps⟩,
+      D06.decap (D06.cidOf [9]) ⟨.capsule 1, .marked ["m"] .caps⟩] [5, 5, 5] with
+    | .ok r => r.WFc (fun _ => 0) (fun _ => true) && r.isMarked && (lengthInt r.unmark == .ok 2)
+    | _ => false) = true := by decide
+example : setRulesOk (.tuple [.number]) [(.seq [.n (Num.ofNat 4)], 5), (.seq [.n (Num.ofNat 4)], 5), (.seq [.n (Num.ofNat 9)], 5)] = true := by
+  decide
+
+/-! ## d06 — decoders: "any value returned by a … decoder" -/
+
+/-- `json.Unmarshal` (cty/json), the REAL decoder model of C17 (`JsonVal.unmarshalTop`): a value it returns is
+well-formed, for every token tree and every requested type with normalised attribute names — relative to the
+oracle laws `C17Json.Laws` (norm idempotent; set hash coherent with `Equivalent`).  "NFC" is read as "fixed
+point of `norm`". -/
+theorem wf_jsonUnmarshal (env : JsonVal.JEnv) (hl : C17Json.Laws env) (j : Json) (ty : Ty) (v : Value)
+    (hty : Ty.wf ty = true) (hn : Ty.namesAll (C17Json.nfcOf env.norm) ty = true)
+    (h : JsonVal.unmarshalTop env j ty = .ok v) : v.WF (C17Json.nfcOf env.norm) = true :=
+  C17.json_ok_wellformed env hl j ty v hty hn h
+
+/-! ## d06 — conversion: "any value returned by a … conversion" (with C08)
+
+About the REAL conversion model `Convert.convert` / `getConv` / `apply` (CtyModel/Convert.lean, diffed against
+cty/convert by the C08 correspondence), for every placeholder-free target, sets as results included.  What is
+taken from elsewhere is explicit: `UnifyLaws` (C09, as in C08); `D06Conv.SetWFLaws nfc E` — on well-formed,
+mark-free members the environment's `Equivalent` is coherent with the `Equals` that `WF` judges duplicates by,
+and equivalent members hash alike (what C03 establishes for plain element types); `D06Conv.TextLaws nfc` — the
+texts `number → string` and `bool → string` produce are NFC (digits, sign, point; "true"/"false"). -/
+
+/-- `convert.Convert(v, want)`: a well-formed value converts to a well-formed value (of type `want` without its
+optional-attribute annotations, C08): payload kinds, lengths, attribute sets, NFC strings and keys, sets
+unmarked / ordered / duplicate-free, one mark layer, refinement kinds. -/
+theorem wf_convert (E : Convert.Env) (hU : Convert.UnifyLaws E) (hS : D06Conv.SetWFLaws nfc E)
+    (hT : D06Conv.TextLaws nfc) (fuel : Nat) (v r : Value) (want : Ty) (hw : want.wf = true)
+    (hd : want.hasDyn = false) (hn : want.namesAll nfc = true) (hv : v.WF nfc = true)
+    (h : Convert.convert E fuel v want = .ok r) : r.WF nfc = true :=
+  D06Conv.convert_wf' E hU hS hT fuel v r want hw hd hn hv h
+
+/-- the same for a conversion obtained from `GetConversion` / `GetConversionUnsafe` and then applied -/
+theorem wf_conversion_applied (E : Convert.Env) (hU : Convert.UnifyLaws E) (hS : D06Conv.SetWFLaws nfc E)
+    (hT : D06Conv.TextLaws nfc) (fuel : Nat) (uns : Bool) (p : Convert.Plan) (v r : Value) (want : Ty)
+    (hw : want.wf = true) (hd : want.hasDyn = false) (hn : want.namesAll nfc = true) (hv : v.WF nfc = true)
+    (hg : Convert.getConv E v.ty want uns = some p) (h : Convert.apply E fuel p v = .ok r) : r.WF nfc = true :=
+  D06Conv.apply_wf' E hU hS hT fuel uns p v r want hw hd hn hv hg h
+
+/-- the set laws reduce, for the environment the driver runs (`Env.concrete`), to symmetry of "`Equals` is known
+true" and coherence of the set hash with it, on well-formed mark-free members -/
+theorem convert_setLaws_of_equals_laws (U : Bool → List Ty → Option Ty)
+    (hsym : ∀ t a b, D06Conv.SetMem nfc t a → D06Conv.SetMem nfc t b → equivP t a b = false → equivP t b a = false)
+    (hcoh : ∀ t a b ha hb, D06Conv.SetMem nfc t a → D06Conv.SetMem nfc t b → Convert.hashC t a = .ok ha →
+      Convert.hashC t b = .ok hb → equivP t a b = true → ha = hb) : D06Conv.SetWFLaws nfc (Convert.Env.concrete U) :=
+  D06Conv.setWFLaws_concrete U hsym hcoh
+
+/-- non-vacuity: a marked list [1, 1, 2] inside an object converts to the marked set {"1", "2"}, `true` to "true",
+the missing optional attribute is filled with null — all hypotheses hold of this instance -/
+example : ∃ r, Convert.convert D06Conv.envDedup 8 D06Conv.exVal D06Conv.exWant = .ok r ∧ r.WF (fun _ => true) = true :=
+  ⟨_, D06Conv.exConvert,
+    wf_convert D06Conv.envDedup D06Conv.unifyLaws_envDedup (D06Conv.setWFLaws_envDedup _) D06Conv.textLaws_true 8
+      D06Conv.exVal _ D06Conv.exWant (by decide) (by decide) (by decide) (by decide) D06Conv.exConvert⟩
+
+/-! ## d06 — the remaining producers: gocty, Transform and the mark-path functions, stdlib Impls -/
+
+/-- `gocty.ToCtyValue(g, ty)` (the REAL model `Gocty.toCty` of C18): whenever it returns, the value is well-formed —
+given NFC results of `NormalizeString`, a target type acceptable as the type of a value, and a Go value whose
+embedded `cty.Value`s are well-formed and whose Go maps have distinct keys (`D06Prod.goOk`). -/
+theorem wf_toCtyValue {norm : String → String} (hn : ∀ s, nfc (norm s) = true) (g : GoVal) (ty : Ty) (v : Value)
+    (h : Gocty.toCty norm g ty = .ok v) (hg : D06Prod.goOk nfc g = true) (hty : ty.ok nfc = true) :
+    v.WF nfc = true := D06Thm.d06_toCtyValue_wf hn g ty v h hg hty
+
+/-- … and for a Go value of a Go type without `cty.Value` fields no hypothesis on the value is needed -/
+theorem wf_toCtyValue_typed {norm : String → String} (hn : ∀ s, nfc (norm s) = true) (g : GoVal) (T : GoTy)
+    (ty : Ty) (v : Value) (hT : Gocty.hasTy g T = true) (hc : Gocty.hasCval T = false)
+    (h : Gocty.toCty norm g ty = .ok v) (hty : ty.ok nfc = true) : v.WF nfc = true :=
+  D06Thm.d06_toCtyValue_wf_typed hn g T ty v hT hc h hty
+
+example : D06Prod.goOk D06Thm.d06_nfc D06Thm.d06_g = true ∧ D06Thm.d06_ty.ok D06Thm.d06_nfc = true ∧
+    (Gocty.toCty D06Thm.d06_norm D06Thm.d06_g D06Thm.d06_ty).isOk = true := by decide
+
+/-- `cty.Transform` / `TransformWithTransformer` with ANY callback that returns well-formed values (it may change
+types): the rebuilt value is well-formed.  Set-free values need nothing of the set oracle … -/
+theorem wf_transform_setFree {X : SetOracle} (hX : Walk.IterPerm X) {σ : Walk.Sched} (hσ : Walk.SchedOk σ)
+    (cb : Walk.TCb) (hcb : ∀ log p v w, v.WF nfc = true → cb log p v = .ok w → w.WF nfc = true) (v r : Value)
+    (hv : v.WF nfc = true) (hs : v.ty.d06_setFree = true) (h : (Walk.transform X σ cb v).2 = .ok r) :
+    r.WF nfc = true := D06Thm.d06_transform_wf_setFree hX hσ cb hcb v r hv hs h
+
+/-- … values with sets need the set rules to be lawful on well-formed mark-free members (`D06Prod.SetLaws`:
+`Equivalent` symmetric — a theorem for plain element types, `D06Prod.setLaws_plain_of_hash` — and hash-coherent) -/
+theorem wf_transform {X : SetOracle} (hX : Walk.IterPerm X) (hlaw : D06Prod.SetLaws X nfc) {σ : Walk.Sched}
+    (hσ : Walk.SchedOk σ) (cb : Walk.TCb)
+    (hcb : ∀ log p v w, v.WF nfc = true → cb log p v = .ok w → w.WF nfc = true) (v r : Value)
+    (hv : v.WF nfc = true) (h : (Walk.transform X σ cb v).2 = .ok r) : r.WF nfc = true :=
+  D06Thm.d06_transform_wf hX hlaw hσ cb hcb v r hv h
+
+/-- Full statement without the set laws: FALSE of the code, for the root cause of `setValWF_false` (the set hash of
+numbers is not coherent with `Equals`) — a well-formed-value-preserving callback makes `Transform` return a set
+holding two `Equals` members.  Witness with the hashes the real code computes. -/
+def TransformWF : Prop :=
+  ∀ (X : SetOracle) (σ : Walk.Sched) (cb : Walk.TCb) (v r : Value), Walk.IterPerm X → Walk.SchedOk σ →
+    (∀ log p v w, v.WF (fun _ => true) = true → cb log p v = .ok w → w.WF (fun _ => true) = true) →
+    v.WF (fun _ => true) = true → (Walk.transform X σ cb v).2 = .ok r → r.WF (fun _ => true) = true
+
+theorem wf_transform_counterexample : Walk.IterPerm D06Thm.d06_dupX ∧
+    D06Thm.d06_dupSet.WF (fun _ => true) = true ∧
+    ∃ r, (Walk.transform D06Thm.d06_dupX Walk.Sched.sorted D06Thm.d06_dupCb D06Thm.d06_dupSet).2 = .ok r ∧
+      r.WF (fun _ => true) = false := D06Thm.d06_transform_set_counterexample
+
+/-- `UnmarkDeepWithPaths` and `MarkWithPaths` (cty/marks.go, through `Transform`) -/
+theorem wf_unmarkDeepWithPaths {X : SetOracle} (hX : Walk.IterPerm X) (hlaw : D06Prod.SetLaws X nfc)
+    {σ : Walk.Sched} (hσ : Walk.SchedOk σ) (v r : Value) (pvm : List Walk.PVM) (hv : v.WF nfc = true)
+    (h : Walk.unmarkDeepWithPaths X σ v = .ok (r, pvm)) : r.WF nfc = true :=
+  D06Thm.d06_unmarkDeepWithPaths_wf hX hlaw hσ v r pvm hv h
+theorem wf_markWithPaths {X : SetOracle} (hX : Walk.IterPerm X) (hlaw : D06Prod.SetLaws X nfc)
+    {σ : Walk.Sched} (hσ : Walk.SchedOk σ) (v r : Value) (pvm : List Walk.PVM) (hv : v.WF nfc = true)
+    (h : Walk.markWithPaths X σ v pvm = .ok r) : r.WF nfc = true :=
+  D06Thm.d06_markWithPaths_wf hX hlaw hσ v r pvm hv h
+
+example : D06Thm.d06_wv.WF D06Thm.d06_wnfc = true ∧ D06Thm.d06_wv.ty.d06_setFree = true ∧
+    (Walk.transform (SetOracle.storage) Walk.Sched.sorted D06Thm.d06_wcb D06Thm.d06_wv).2.isOk = true := by decide
+
+/-! ### stdlib: the modelled `Impl`s return well-formed values
+
+`CtyModel.D06StdThm.wf_<f>Impl` (Lemmas/d06Stdlib.lean, one theorem per modelled function: the collection and
+sequence functions except the set algebra and `setproduct`, number / bool / comparison functions, the string functions
+behind `StdNum.Lib`, `format`, `formatdate`, `timeadd`): `impl args … = .ok r → (arguments well-formed; return type
+acceptable; `StringVal`'s normaliser has NFC results; conversions return well-formed values) → r.WF`.  Together with
+`wf_call` (whose hypothesis `himpl` they discharge) this is "any value returned by a … function".  They are
+re-declared here under the same statements as `C06.wf_stdlib_<f>Impl`, proved by the originals. -/
+open Lean Elab Command in
+run_cmd do
+  let env ← getEnv
+  for (n, ci) in env.constants.toList do
+    if (`CtyModel.D06StdThm).isPrefixOf n && !n.isInternal && n.getPrefix == `CtyModel.D06StdThm then
+      if let .thmInfo ti := ci then
+        let s := n.getString!
+        if s.startsWith "wf_" && s.endsWith "Impl" then
+          let nm : Name := Name.str `CtyModel.C06 ("wf_stdlib_" ++ (s.drop 3).toString)
+          let val : Expr := mkConst n (ti.levelParams.map mkLevelParam)
+          let d : TheoremVal := { name := nm, levelParams := ti.levelParams, type := ti.type, value := val }
+          liftCoreM <| addDecl (Declaration.thmDecl d)
+
+/-! ## d06 — "every accessor applicable to that type succeeds": the remaining accessors, marked values included -/
+
+/-- On a well-formed value — MARKED OR NOT, known or unknown — : `Length` on tuples, objects, non-null collections
+and the unknown placeholder; `HasIndex` on non-null lists / maps / tuples with any non-null well-formed key of any
+type; `Index` wherever `HasIndex` did not answer a known `False` (and on maps for every string key: an absent key
+reads as null); `GetAttr` for every declared attribute; `Equals v v` for capsule-free types (sets included);
+`Hash` never panics on a value without marks (it answers `.unmodelled` only for a string with a rune outside the
+modelled `strconv.Quote` table); `Range` exactly on unmarked values — each returns, with a well-formed result.
+The accessors that reject marks by contract (`True`, `AsBigFloat`, `AsString`, `LengthInt`, `ElementIterator`,
+`Range`) stay in `accessors_total` with `isMarked = false`. -/
+theorem accessors_total_marked (v : Value) (hv : v.WF nfc = true) :
+    (((∃ es, v.ty = .tuple es) ∨ (∃ ns ts os, v.ty = .object ns ts os) ∨ (isCollection v.ty = true ∧ v.isNull = false) ∨
+        (v.ty = .dyn ∧ v.isKnown = false)) → ∃ r, Value.length v = .ok r ∧ r.WF nfc = true) ∧
+    (v.isNull = false → ((∃ e, v.ty = .list e) ∨ (∃ e, v.ty = .map e) ∨ ∃ es, v.ty = .tuple es) →
+      ∀ k : Value, k.WF nfc = true → k.isNull = false → ∃ r, hasIndex v k = .ok r ∧ r.WF nfc = true) ∧
+    (v.isNull = false → ∀ k h : Value, hasIndex v k = .ok h → Value.isFalse h.unmark = false →
+      ∃ r, index v k = .ok r ∧ r.WF nfc = true) ∧
+    (v.isNull = false → ∀ e, v.ty = .map e → ∀ k : Value, k.WF nfc = true → k.isNull = false → k.ty = .string →
+      ∃ r, index v k = .ok r ∧ r.WF nfc = true) ∧
+    (∀ ns ts os, v.ty = .object ns ts os → v.isNull = false → ∀ name ∈ ns, ∃ r, v.getAttr name = .ok r) ∧
+    (Ty.hasCapsule v.ty = false → ∃ r, equals v v = .ok r ∧ r.WF nfc = true) ∧
+    (v.containsMarked = false → D06Acc.OkOrUn (Value.hash v)) ∧
+    (v.isMarked = false → ∃ r, v.range = .ok r) ∧
+    (v.isMarked = true → v.range = .panic "Range on marked value") :=
+  D06Acc.accessors_total_ext v hv
+
+/-- `Index` at every position of a (possibly marked, possibly unknown) non-null tuple, and present keys of a map -/
+theorem accessors_total_index_tuple (es : List Ty) (p : Payload) (i : Nat) (hi : i < es.length)
+    (hmax : (i : Int) ≤ maxInt) (hv : Value.WF nfc ⟨.tuple es, p⟩ = true) (hn : p.isNull = false) :
+    ∃ r, index ⟨.tuple es, p⟩ (intVal i) = .ok r ∧ r.WF nfc = true :=
+  D06Acc.index_tuple_total es p i hi hmax hv hn
+theorem accessors_total_index_map (e : Ty) (p : Payload) (ks : List String) (vs : List Payload) (k : String)
+    (hp : p.unmark1 = .smap ks vs) (hv : Value.WF nfc ⟨.map e, p⟩ = true) (hk : k ∈ ks) :
+    ∃ r, index ⟨.map e, p⟩ ⟨.string, .s k⟩ = .ok r ∧ r.WF nfc = true :=
+  D06Acc.index_map_present e p ks vs k hp hv hk
+
+/-- `Equals` on two well-formed values of one capsule-free type (sets at any depth, marks at any depth, unknowns):
+returns a well-formed bool -/
+theorem equals_total (a b : Value) (ha : a.WF nfc = true) (hb : b.WF nfc = true) (hty : a.ty = b.ty)
+    (hc : Ty.hasCapsule a.ty = false) : ∃ r, equals a b = .ok r ∧ r.WF nfc = true :=
+  D06Acc.equals_total a b ha hb hty hc
+
+/-- `RawEquals v v` is `true` (never a panic) for a well-formed capsule-free value -/
+theorem rawEquals_self_total {X : SetOracle} (hX : Walk.IterPerm X) (v : Value) (hv : v.WF nfc = true)
+    (hz : D06Acc.sizesOk v.v = true) (hc : Ty.hasCapsule v.ty = false) : Value.rawEquals X v v = .ok true :=
+  D06Acc.rawEquals_self_total hX v hv hz hc
+
+/-- `Hash` never panics on a well-formed value that contains no mark (marks are its one documented precondition) -/
+theorem hash_total (v : Value) (hv : v.WF nfc = true) (hm : v.containsMarked = false) :
+    D06Acc.OkOrUn (Value.hash v) ∧ ∀ w, Value.hash v ≠ .panic w := D06Acc.hash_total_all v hv hm
+
+/-- where applicability ends: a NULL tuple answers `HasIndex` with `True` (only the type is consulted) but `Index`
+panics on it; `HasIndex` panics on a null key although any other key of a wrong type gets `False`; `Length` panics on
+a null list but not on a null tuple (replayed on the real code; see the report) -/
+theorem accessors_null_receiver_witnesses :
+    (D06Acc.nullTuple.WF (fun _ => true) = true ∧
+      D06Acc.isOkTrue (hasIndex D06Acc.nullTuple (intVal 0)) = true ∧
+      Res.isPanic (index D06Acc.nullTuple (intVal 0)) = true) ∧
+    (Value.WF (fun _ => true) ⟨.number, .null⟩ = true ∧
+      Res.isPanic (hasIndex ⟨.list .string, .seq [.s "a"]⟩ ⟨.number, .null⟩) = true) ∧
+    (Res.isPanic (Value.length ⟨.list .string, .null⟩) = true ∧ (Value.length D06Acc.nullTuple).isOk = true) :=
+  ⟨D06Acc.index_null_tuple_witness, D06Acc.hasIndex_null_key_witness, D06Acc.length_null_witness⟩
+
+example : D06Acc.sample.WF (fun _ => true) = true ∧ D06Acc.sample.isMarked = true ∧
+    (Value.length D06Acc.sample).isOk = true ∧ (equals D06Acc.sample D06Acc.sample).isOk = true ∧
+    (index D06Acc.sampleMap D06Acc.sampleKey).isOk = true ∧ (hasIndex D06Acc.sampleTuple (intVal 5)).isOk = true := by
+  decide
+example : D06Acc.sampleSet.WF (fun _ => true) = true ∧ Ty.hasCapsule D06Acc.sampleSet.ty = false ∧
+    (equals D06Acc.sampleSet D06Acc.sampleSet).isOk = true := by decide
 
 /-! ## non-vacuity: the hypotheses are met by a nested, marked, partly unknown value, and the
 conclusions are not trivially true (neighbouring ill-formed values are rejected by `WF`) -/
